@@ -22,6 +22,21 @@ class HelperExec(glue.Exec):
 
     def binop(self, op, a, b, st):
         if isinstance(a, Opaque) or isinstance(b, Opaque):
+            import ast as _ast
+
+            if isinstance(op, (_ast.Div, _ast.FloorDiv, _ast.Mod)) and isinstance(b, (Sym, Const)):
+                # an unknown quantity divided by a number: the number may be zero
+                try:
+                    y, _ = self.num(b)
+                except Unsupported:
+                    return [("val", Opaque("arith"), st)]
+                outs = []
+                for cond in (True, False):
+                    s2 = st.fork()
+                    s2.pc.append(y == 0 if cond else y != 0)
+                    if self.feasible(s2):
+                        outs.append(("raise", Const(ZeroDivisionError), s2) if cond else ("val", Opaque("arith"), s2))
+                return outs
             return [("val", Opaque("arith"), st)]
         return super().binop(op, a, b, st)
 
